@@ -99,6 +99,49 @@ def check(chk: Check) -> None:
                 chk.fail(ra, inst, f"pyjelly.{disagree[0]}:disagrees", f"{disagree[0]} and {ref_key} return different statements for the same frames: {disagree[1]}")
             else:
                 chk.ok(ra, inst, {"parsers": sorted(outs), "statements": len(ref)})
+    # (a') the six parsers on streams of a foreign producer (entries and statements in different frames, empty frames, ...)
+    from .. import refenc
+    from . import c04
+
+    fjobs = []
+    for physical in (1, 2, 3):
+        for name, stmts in c04.sequences(physical):
+            if name not in ("long-mixed", "repeats"):
+                continue
+            for pol in (refenc.Policy(framing="per-row"), refenc.Policy(framing="empty-and-options", entries="redundant", ids="alternate"), refenc.Policy(framing="per-statement", evict="fifo", repeats="never"), refenc.Policy(framing="one", delimited=False)):
+                fjobs.append(dict(physical=physical, logical=0, name=name, stmts=stmts, policy=pol, sizes=(8, 4 if physical == 1 else 5, 2), parsers=SIX, rdf11=True, ns=False))
+    for res in pmap(c04.run, fjobs, min_parallel=4):
+        jb = res["job"]
+        for p in res["paths"]:
+            chk.paths += 1
+            inst = f"foreign stream {jb['name']} physical={jb['physical']} | {jb['policy']}"
+            outs = {}
+            bad = None
+            for k_, out in p["readers"].items():
+                if out[0] != "ok":
+                    bad = (k_, out)
+                    break
+                got = out[1]
+                if k_.endswith("grouped"):
+                    flat = []
+                    for g in got:
+                        flat.extend(g[1])
+                    got = tuple(flat)
+                outs[k_] = tuple(x for x in got if x[0] != "ns")
+            if bad:
+                chk.fail(ra, inst, f"pyjelly.{bad[0]}:raises", f"{bad[0]} raises {bad[1][1]} at {bad[1][2]} on a valid stream the reference decoder accepts ({jb['policy']})")
+                continue
+            ref = outs["generic.parse_jelly_flat"]
+            dis = None
+            for k_, got in outs.items():
+                same = (c02._as_set(got) == c02._as_set(ref)) if (k_.endswith("to_graph") or (k_.startswith("rdflib") and k_.endswith("grouped"))) else got == ref
+                if not same:
+                    dis = (k_, pipejob.first_diff(got, ref))
+                    break
+            if dis:
+                chk.fail(ra, inst, f"pyjelly.{dis[0]}:disagrees", f"{dis[0]} and generic.parse_jelly_flat return different statements for the same foreign stream: {dis[1]}")
+            else:
+                chk.ok(ra, inst, {"parsers": sorted(outs), "statements": len(ref)})
     # (b) serializers agree
     for key, pair in by_key.items():
         if "generic" not in pair or "rdflib" not in pair:
